@@ -1,14 +1,25 @@
 """C13: f64/f32 -> Decimal (src/from_float.rs) and `normalize` (src/lib.rs).
 
-Specification: spec/float.rs (bit-pattern model, `nearest18`, `dec_of_f64_bits`), std assumptions:
-spec/std_float.rs.  Everything in LEMMAS below is mathematics (proved here, no code involved).
+Specification: spec/float.rs (bit-pattern model, `strip`, `nearest18`, `dec_of_f64_bits`); std assumptions:
+spec/std_float.rs.  Everything in LEMMAS below is mathematics (proved here, no code involved); the section
+"validation of the specification" proves that `nearest18` means what the statement of C13 says.
+
+Verified with their real bodies: normalize, f64_decode, f32_decode (bit fields by `by (bit_vector)` at entry),
+approx_rational, both try_from.  Assumed here: i128_magnitude (stub, proved in unit magnitude / C15).
+No explicit panic is reachable (assert!(divisor > 0), assert_ne!(biased_exp, 0x7ff / 0xff)), no overflow
+(rem *= 10, rem <<= 1, coeff * 10 + quot, coeff += 1, sign * significand, 1 << k).
+approx_rational's requires (|divident| < 2^64, 0 < divisor <= 2^126) are derived from the two call sites
+(|numer| < 2^53 resp. 2^24, denom = 2^k with 1 <= k <= 126); under them the `magn_coeff < 37` loop condition
+never ends the loop early (magn_coeff <= 19 + n_frac_digits is an invariant).
+
+`build_strict` adds `valid(result)`; it fails on the unchanged tree exactly for f = -2^127 (see contract comment).
 """
 from vgen import Unit, Contract as C, Loop
 import common
 
 LEMMAS = r'''
 // ------------------------------------------------------------------ powers of two
-pub proof fn lemma_p2_values()
+pub proof fn ff_lemma_p2_values()
     ensures
         p2(0) == 1, p2(1) == 2,
         p2(23) == 0x80_0000, p2(24) == 0x100_0000,
@@ -28,7 +39,7 @@ pub proof fn lemma_p2_values()
     vstd::arithmetic::power2::lemma_pow2_adds(64, 64);
 }
 
-pub proof fn lemma_p2_mono(a: nat, b: nat)
+pub proof fn ff_lemma_p2_mono(a: nat, b: nat)
     requires a <= b
     ensures 0 < p2(a) <= p2(b)
 {
@@ -37,7 +48,7 @@ pub proof fn lemma_p2_mono(a: nat, b: nat)
 }
 
 /// 1 << k on i128 is 2^k (k < 127); 1 << 127 is i128::MIN
-pub proof fn lemma_shl_p2(k: nat)
+pub proof fn ff_lemma_shl_p2(k: nat)
     requires k < 127
     ensures (1i128 << k) == p2(k)
     decreases k
@@ -46,7 +57,7 @@ pub proof fn lemma_shl_p2(k: nat)
         assert(1i128 << 0u32 == 1) by (bit_vector);
         vstd::arithmetic::power2::lemma2_to64();
     } else {
-        lemma_shl_p2((k - 1) as nat);
+        ff_lemma_shl_p2((k - 1) as nat);
         let j = (k - 1) as u32;
         assert(j < 126 ==> (1i128 << ((j + 1) as u32)) == 2 * (1i128 << j)) by (bit_vector);
         assert((1i128 << j) == (1i128 << ((k - 1) as nat)));
@@ -55,22 +66,22 @@ pub proof fn lemma_shl_p2(k: nat)
     }
 }
 
-pub proof fn lemma_shl_usize(k: usize)
+pub proof fn ff_lemma_shl_usize(k: usize)
     requires k < 128
     ensures k < 127 ==> (1i128 << k) == p2(k as nat), k == 127 ==> (1i128 << k) == i128::MIN
 {
-    if k < 127 { lemma_shl_p2(k as nat); }
+    if k < 127 { ff_lemma_shl_p2(k as nat); }
     else { assert(1i128 << 127u32 == -0x8000_0000_0000_0000_0000_0000_0000_0000i128) by (bit_vector); }
 }
 
-pub broadcast proof fn lemma_shl1_i128(x: i128)
+pub broadcast proof fn ff_lemma_shl1_i128(x: i128)
     requires 0 <= x < 0x4000_0000_0000_0000_0000_0000_0000_0000i128
     ensures #[trigger] (x << 1) == 2 * x
 {
     assert(0 <= x < 0x4000_0000_0000_0000_0000_0000_0000_0000i128 ==> (x << 1) == 2 * x) by (bit_vector);
 }
 
-pub broadcast proof fn lemma_and1_i128(x: i128)
+pub broadcast proof fn ff_lemma_and1_i128(x: i128)
     requires 0 <= x
     ensures (#[trigger] (x & 1i128) == 1i128) == (x % 2 == 1)
 {
@@ -83,7 +94,7 @@ pub open spec fn he_up(q: int, r: int, d: int) -> int {
     if 2 * r > d || (2 * r == d && q % 2 != 0) { q + 1 } else { q }
 }
 
-pub proof fn lemma_he(q: int, r: int, d: int)
+pub proof fn ff_lemma_he(q: int, r: int, d: int)
     requires d > 0, 0 <= r < d
     ensures round_div(q * d + r, d, RoundingMode::RoundHalfEven) == he_up(q, r, d)
 {
@@ -91,7 +102,7 @@ pub proof fn lemma_he(q: int, r: int, d: int)
 }
 
 /// half-even is symmetric
-pub proof fn lemma_he_neg(n: int, d: int)
+pub proof fn ff_lemma_he_neg(n: int, d: int)
     requires d > 0
     ensures round_div(-n, d, RoundingMode::RoundHalfEven) == -round_div(n, d, RoundingMode::RoundHalfEven)
 {
@@ -108,7 +119,7 @@ pub proof fn lemma_he_neg(n: int, d: int)
     }
 }
 
-pub proof fn lemma_round_small(x: int, d: int)
+pub proof fn ff_lemma_round_small(x: int, d: int)
     requires d > 0, 2 * abs_int(x) < d
     ensures round_div(x, d, RoundingMode::RoundHalfEven) == 0
 {
@@ -117,7 +128,7 @@ pub proof fn lemma_round_small(x: int, d: int)
     else { lemma_div_mod_unique(x, d, -1, x + d); }
 }
 
-pub proof fn lemma_round_exact(q: int, d: int, mode: RoundingMode)
+pub proof fn ff_lemma_round_exact(q: int, d: int, mode: RoundingMode)
     requires d > 0
     ensures round_div(q * d, d, mode) == q
 {
@@ -125,14 +136,14 @@ pub proof fn lemma_round_exact(q: int, d: int, mode: RoundingMode)
 }
 
 // ------------------------------------------------------------------ strip
-pub proof fn lemma_strip_le(c: int, n: nat)
+pub proof fn ff_lemma_strip_le(c: int, n: nat)
     ensures strip(c, n).1 <= n
     decreases n
 {
-    if c != 0 && n > 0 && c % 10 == 0 { lemma_strip_le(c / 10, (n - 1) as nat); }
+    if c != 0 && n > 0 && c % 10 == 0 { ff_lemma_strip_le(c / 10, (n - 1) as nat); }
 }
 
-pub proof fn lemma_strip_pow10(c: int, n: nat, k: nat)
+pub proof fn ff_lemma_strip_pow10(c: int, n: nat, k: nat)
     ensures strip(c * pow10(k), n + k) == strip(c, n)
     decreases k
 {
@@ -147,30 +158,152 @@ pub proof fn lemma_strip_pow10(c: int, n: nat, k: nat)
         assert(x == y * 10) by (nonlinear_arith) requires x == c * pow10(k), y == c * pow10((k - 1) as nat), pow10(k) == 10 * pow10((k - 1) as nat);
         assert(y != 0) by (nonlinear_arith) requires y == c * pow10((k - 1) as nat), c != 0, pow10((k - 1) as nat) >= 1;
         lemma_div_mod_unique(x, 10, y, 0);
-        lemma_strip_pow10(c, n, (k - 1) as nat);
+        ff_lemma_strip_pow10(c, n, (k - 1) as nat);
         assert(((n + k) - 1) as nat == n + ((k - 1) as nat));
     }
 }
 
-pub proof fn lemma_nearest_int(x: int)
+pub proof fn ff_lemma_nearest_int(x: int)
     ensures nearest18(x, 1) == (x, 0nat)
 {
-    lemma_round_exact(x * pow10(18), 1, RoundingMode::RoundHalfEven);
+    ff_lemma_round_exact(x * pow10(18), 1, RoundingMode::RoundHalfEven);
     assert((x * pow10(18)) * 1 == x * pow10(18));
-    lemma_strip_pow10(x, 0, 18);
+    ff_lemma_strip_pow10(x, 0, 18);
 }
 
-pub proof fn lemma_nearest_zero(d: int)
+pub proof fn ff_lemma_nearest_zero(d: int)
     requires d > 0
     ensures nearest18(0, d) == (0int, 0nat)
 {
     assert(0 * pow10(18) == 0);
-    lemma_round_small(0, d);
+    ff_lemma_round_small(0, d);
+}
+
+
+// ------------------------------------------------------------------ validation of the specification
+// (independent of the code: nearest18 has the properties the statement of C13 names)
+/// strip keeps the value c / 10^n, never increases the scale, leaves no trailing fractional zero
+pub proof fn ff_lemma_strip_value(c: int, n: nat)
+    ensures ({
+        let s = strip(c, n);
+        &&& s.1 <= n
+        &&& s.0 * pow10((n - s.1) as nat) == c
+        &&& (s.1 == 0 || s.0 % 10 != 0)
+    })
+    decreases n
+{
+    if c == 0 {
+        assert(0 * pow10(n) == 0);
+    } else if n > 0 && c % 10 == 0 {
+        let c1 = c / 10;
+        ff_lemma_strip_value(c1, (n - 1) as nat);
+        let s = strip(c1, (n - 1) as nat);
+        let j = (n - 1 - s.1) as nat;
+        assert(pow10((n - s.1) as nat) == 10 * pow10(j));
+        assert(s.0 * pow10((n - s.1) as nat) == c) by (nonlinear_arith)
+            requires s.0 * pow10(j) == c1, pow10((n - s.1) as nat) == 10 * pow10(j), c == 10 * c1;
+    } else {
+        assert(c * pow10(0) == c) by (nonlinear_arith) requires pow10(0) == 1;
+    }
+}
+
+/// half-even: the result is a nearest integer to x/d, on a tie the even one, exact when d | x
+pub proof fn ff_lemma_he_is_nearest(x: int, d: int)
+    requires d > 0
+    ensures ({
+        let q = round_div(x, d, RoundingMode::RoundHalfEven);
+        &&& 2 * abs_int(q * d - x) <= d
+        &&& (2 * abs_int(q * d - x) == d ==> q % 2 == 0)
+        &&& (x % d == 0 ==> q * d == x)
+    })
+{
+    let f = x / d;
+    let r = x % d;
+    vstd::arithmetic::div_mod::lemma_fundamental_div_mod(x, d);
+    vstd::arithmetic::div_mod::lemma_mod_bound(x, d);
+    assert(f * d == d * f) by (nonlinear_arith);
+    assert((f + 1) * d == d * f + d) by (nonlinear_arith);
+}
+
+/// C13 as stated: the result (c, n) of nearest18 has n <= 18, no trailing fractional zero, c/10^n is a
+/// multiple of 10^-18 nearest to num/den (tie: even 18-digit coefficient), equal to num/den whenever
+/// num/den has at most 18 fractional digits; integral num/den gives (num/den, 0).
+pub proof fn ff_lemma_nearest18_meaning(num: int, den: int)
+    requires den > 0
+    ensures ({
+        let cn = nearest18(num, den);
+        let c18 = cn.0 * pow10((18 - cn.1) as nat);       // the same value at scale 18
+        &&& cn.1 <= 18
+        &&& (cn.1 == 0 || cn.0 % 10 != 0)
+        &&& 2 * abs_int(c18 * den - num * pow10(18)) <= den
+        &&& (2 * abs_int(c18 * den - num * pow10(18)) == den ==> c18 % 2 == 0)
+        &&& ((num * pow10(18)) % den == 0 ==> c18 * den == num * pow10(18))
+        &&& (num % den == 0 ==> cn == (num / den, 0nat))
+    })
+{
+    let q = round_div(num * pow10(18), den, RoundingMode::RoundHalfEven);
+    ff_lemma_he_is_nearest(num * pow10(18), den);
+    ff_lemma_strip_value(q, 18);
+    if num % den == 0 {
+        let k = num / den;
+        vstd::arithmetic::div_mod::lemma_fundamental_div_mod(num, den);
+        assert(num * pow10(18) == (k * pow10(18)) * den) by (nonlinear_arith) requires num == den * k;
+        ff_lemma_round_exact(k * pow10(18), den, RoundingMode::RoundHalfEven);
+        ff_lemma_strip_pow10(k, 0, 18);
+    }
+}
+
+
+// ------------------------------------------------------------------ which results leave Decimal::MIN ..= Decimal::MAX
+/// a fraction with |numerator| < 2^64 stays far inside the coefficient range
+pub proof fn ff_lemma_frac_in_coeff(x: int, d: int)
+    requires d >= 1, -0x1_0000_0000_0000_0000 < x < 0x1_0000_0000_0000_0000
+    ensures in_coeff(nearest18(x, d).0)
+{
+    let xx = x * pow10(18);
+    let q = round_div(xx, d, RoundingMode::RoundHalfEven);
+    lemma_pow10_values();
+    ff_lemma_he_is_nearest(xx, d);
+    let bound = 0x1_0000_0000_0000_0000 * 1000000000000000000;
+    assert(-bound < xx < bound) by (nonlinear_arith)
+        requires -0x1_0000_0000_0000_0000 < x < 0x1_0000_0000_0000_0000, xx == x * pow10(18), pow10(18) == 1000000000000000000, bound == 0x1_0000_0000_0000_0000 * 1000000000000000000;
+    let t = q * d - xx;
+    assert(-d <= 2 * t <= d);
+    assert(-bound - 1 <= q <= bound + 1) by (nonlinear_arith)
+        requires t == q * d - xx, -d <= 2 * t <= d, d >= 1, -bound < xx < bound, bound > 0;
+    ff_lemma_strip_value(q, 18);
+    let s = strip(q, 18);
+    let j = (18 - s.1) as nat;
+    lemma_pow10_pos(j);
+    assert(-bound - 1 <= s.0 <= bound + 1) by (nonlinear_arith)
+        requires s.0 * pow10(j) == q, pow10(j) >= 1, -bound - 1 <= q <= bound + 1, bound > 0;
+}
+
+/// m * 2^e == 2^127 with 2^t <= m < 2^(t+1) forces m == 2^t, e == 127 - t
+pub proof fn ff_lemma_pow2_unique(m: int, e: int, t: nat)
+    requires p2(t) <= m < p2(t + 1), e >= 0, t <= 127, m * p2(e as nat) == p2(127)
+    ensures e == 127 - t, m == p2(t)
+{
+    let pe = p2(e as nat);
+    ff_lemma_p2_mono(0, e as nat);
+    ff_lemma_p2_mono(0, t);
+    vstd::arithmetic::power2::lemma_pow2_adds(t, e as nat);
+    vstd::arithmetic::power2::lemma_pow2_adds(t + 1, e as nat);
+    if e + t < 127 {
+        ff_lemma_p2_mono(t + 1 + e as nat, 127);
+        assert(m * pe < p2(t + 1) * pe) by (nonlinear_arith) requires m < p2(t + 1), pe > 0;
+    } else if e + t > 127 {
+        ff_lemma_p2_mono(128, t + e as nat);
+        vstd::arithmetic::power2::lemma_pow2_strictly_increases(127, 128);
+        assert(m * pe >= p2(t) * pe) by (nonlinear_arith) requires m >= p2(t), pe > 0;
+    } else {
+        assert(m == p2(t)) by (nonlinear_arith) requires m * pe == p2(t) * pe, pe > 0;
+    }
 }
 
 // ------------------------------------------------------------------ long division (approx_rational)
 /// one digit of the long division dd / d
-pub proof fn lemma_ar_step(dd: int, d: int, c: int, r: int, k: nat)
+pub proof fn ff_lemma_ar_step(dd: int, d: int, c: int, r: int, k: nat)
     requires d > 0, 0 <= r < d, c >= 0, c * d + r == dd * pow10(k)
     ensures ({
         let q = (r * 10) / d;
@@ -197,7 +330,7 @@ pub proof fn lemma_ar_step(dd: int, d: int, c: int, r: int, k: nat)
 
 /// when the long division of |x| by d has produced k digits (quotient c, remainder r) and either the
 /// remainder is zero or k == 18, the half-even rounded, sign-restored, stripped quotient is nearest18
-pub proof fn lemma_ar_final(x: int, d: int, c: int, r: int, k: nat)
+pub proof fn ff_lemma_ar_final(x: int, d: int, c: int, r: int, k: nat)
     requires x != 0, d > 0, 0 <= r < d, k <= 18, c * d + r == abs_int(x) * pow10(k), r == 0 || k == 18
     ensures nearest18(x, d) == strip(he_up(c, r, d) * sgn(x), k)
 {
@@ -207,14 +340,14 @@ pub proof fn lemma_ar_final(x: int, d: int, c: int, r: int, k: nat)
     let c18 = round_div(dd * pow10(18), d, he);
     // the rounded coefficient of |x| at scale 18 is he_up(c, r, d) * 10^(18-k)
     if k == 18 {
-        lemma_he(c, r, d);
+        ff_lemma_he(c, r, d);
         assert(pow10(j) == 1);
         assert(he_up(c, r, d) * pow10(j) == he_up(c, r, d)) by (nonlinear_arith) requires pow10(j) == 1;
     } else {
         lemma_pow10_add(k, j);
         assert(dd * pow10(18) == (c * pow10(j)) * d) by (nonlinear_arith)
             requires c * d + r == dd * pow10(k), r == 0, pow10(18) == pow10(k) * pow10(j);
-        lemma_round_exact(c * pow10(j), d, he);
+        ff_lemma_round_exact(c * pow10(j), d, he);
     }
     let h = he_up(c, r, d);
     assert(c18 == h * pow10(j));
@@ -225,16 +358,16 @@ pub proof fn lemma_ar_final(x: int, d: int, c: int, r: int, k: nat)
         assert(hs * pow10(j) == c18) by (nonlinear_arith) requires c18 == h * pow10(j), hs == h * sgn(x), sgn(x) == 1;
     } else {
         assert(x * pow10(18) == -(dd * pow10(18))) by (nonlinear_arith) requires x == -dd;
-        lemma_he_neg(dd * pow10(18), d);
+        ff_lemma_he_neg(dd * pow10(18), d);
         assert(hs * pow10(j) == -c18) by (nonlinear_arith) requires c18 == h * pow10(j), hs == h * sgn(x), sgn(x) == -1;
     }
     assert(round_div(x * pow10(18), d, he) == hs * pow10(j));
-    lemma_strip_pow10(hs, k, j);
+    ff_lemma_strip_pow10(hs, k, j);
     assert(k + j == 18);
 }
 
 // ------------------------------------------------------------------ normalize
-pub proof fn lemma_div10_exact(c: int)
+pub proof fn ff_lemma_div10_exact(c: int)
     ensures
         (vstd::arithmetic::div_mod::rust_rem(c, 10) == 0) <==> (c % 10 == 0),
         c % 10 == 0 ==> vstd::arithmetic::div_mod::rust_div(c, 10) == c / 10,
@@ -246,28 +379,28 @@ pub proof fn lemma_div10_exact(c: int)
 
 // ------------------------------------------------------------------ the three ranges of the exponent
 /// |value| < 2^64 * 2^-127: rounds to zero
-pub proof fn lemma_float_tiny(neg: bool, m: int, e: int)
+pub proof fn ff_lemma_float_tiny(neg: bool, m: int, e: int)
     requires 0 <= m < 0x1_0000_0000_0000_0000, e < -126
     ensures dec_of_float(neg, m, e) == Ok::<Decimal, DecimalError>(Decimal { coeff: 0, n_frac_digits: 0 })
 {
     let x = fl_num(neg, m, e);
     let d = fl_den(e);
-    lemma_p2_values();
+    ff_lemma_p2_values();
     lemma_pow10_values();
-    lemma_p2_mono(127, (-e) as nat);
+    ff_lemma_p2_mono(127, (-e) as nat);
     assert(abs_int(x) == m);
     assert(abs_int(x * pow10(18)) == m * pow10(18)) by (nonlinear_arith) requires abs_int(x) == m, m >= 0, pow10(18) > 0;
     assert(m * pow10(18) < 0x1_0000_0000_0000_0000 * 1000000000000000000) by (nonlinear_arith)
         requires 0 <= m < 0x1_0000_0000_0000_0000, pow10(18) == 1000000000000000000;
-    lemma_round_small(x * pow10(18), d);
+    ff_lemma_round_small(x * pow10(18), d);
 }
 
 /// integral value: exact, scale 0
-pub proof fn lemma_float_int(neg: bool, m: int, e: int)
+pub proof fn ff_lemma_float_int(neg: bool, m: int, e: int)
     requires e >= 0
     ensures nearest18(fl_num(neg, m, e), fl_den(e)) == (fl_num(neg, m, e), 0nat)
 {
-    lemma_nearest_int(fl_num(neg, m, e));
+    ff_lemma_nearest_int(fl_num(neg, m, e));
 }
 '''
 
@@ -313,9 +446,9 @@ AR_PRE = ['divisor > 0',
 AR_ENTRY = '''
     let x = divident as int; let d = divisor as int; let dd = abs_int(x);
     lemma_pow10_values();
-    broadcast use lemma_shl1_i128, lemma_and1_i128;
-    if d == 1 { lemma_nearest_int(x); }
-    else if x == 0 { lemma_nearest_zero(d); }
+    broadcast use ff_lemma_shl1_i128, ff_lemma_and1_i128;
+    if d == 1 { ff_lemma_nearest_int(x); }
+    else if x == 0 { ff_lemma_nearest_zero(d); }
     else {
         lemma_rust_div(dd, d);
         vstd::arithmetic::div_mod::lemma_fundamental_div_mod(dd, d);
@@ -323,7 +456,7 @@ AR_ENTRY = '''
         let c0 = dd / d; let r0 = dd % d;
         assert(c0 >= 0 && c0 <= dd) by (nonlinear_arith) requires dd == d * c0 + r0, 0 <= r0 < d, d >= 1, dd >= 0;
         assert(c0 * d + r0 == dd * pow10(0)) by (nonlinear_arith) requires dd == d * c0 + r0, pow10(0) == 1;
-        if r0 == 0 { lemma_ar_final(x, d, c0, r0, 0); }
+        if r0 == 0 { ff_lemma_ar_final(x, d, c0, r0, 0); }
         assert forall|v: int| #[trigger] (v * sgn(x)) == (if x > 0 { v } else { -v }) by { assert(v * sgn(x) == (if x > 0 { v } else { -v })) by (nonlinear_arith) requires x != 0, sgn(x) == (if x > 0 { 1int } else { -1int }); }
         assert forall|j: nat| j >= 20 implies #[trigger] pow10(j) >= pow10(20) by { lemma_pow10_mono(20, j); }
         assert forall|j: nat| j <= 38 implies #[trigger] pow10(j) <= pow10(38) by { lemma_pow10_mono(j, 38); }
@@ -336,9 +469,9 @@ AR_BODY = '''
     lemma_pow10_values();
     lemma_pow10_mono(k, 17);
     lemma_pow10_mono((magn_coeff + 1) as nat, 37);
-    lemma_ar_step(dd, d, coeff as int, rem as int, k);
+    ff_lemma_ar_step(dd, d, coeff as int, rem as int, k);
     let q = (rem * 10) / d; let r2 = (rem * 10) % d;
-    if r2 == 0 || k + 1 == 18 { lemma_ar_final(x, d, coeff * 10 + q, r2, k + 1); }
+    if r2 == 0 || k + 1 == 18 { ff_lemma_ar_final(x, d, coeff * 10 + q, r2, k + 1); }
 '''
 
 AR_INV = [
@@ -361,12 +494,12 @@ def contracts():
     d['normalize'] = C(
         post=[('normalize.strip',
                '(*final(coeff) as int, *final(n_frac_digits) as nat) == strip(*old(coeff) as int, *old(n_frac_digits) as nat)')],
-        entry='lemma_div10_exact(*coeff as int);',
+        entry='ff_lemma_div10_exact(*coeff as int);',
         loops=[Loop(inv=['*coeff != 0',
                          '(' + RR + '(*coeff as int, 10) == 0) <==> (*coeff as int % 10 == 0)',
                          'strip(*coeff as int, *n_frac_digits as nat) == strip(*old(coeff) as int, *old(n_frac_digits) as nat)'],
                     dec='*n_frac_digits',
-                    body_entry='lemma_div10_exact(*coeff as int); lemma_div10_exact(*coeff as int / 10);')])
+                    body_entry='ff_lemma_div10_exact(*coeff as int); ff_lemma_div10_exact(*coeff as int / 10);')])
     d['from_float::f64_decode'] = decode_contract(64)
     d['from_float::f32_decode'] = decode_contract(32)
     d['from_float::approx_rational'] = C(
@@ -386,47 +519,64 @@ MAGNITUDE_STUB = C(
 
 def try_from_entry(w):
     p = 'f%d' % w
+    t = {64: '52', 32: '23'}[w]
+    only = {64: 'assert(b / 0x8000_0000_0000_0000 == 1 && (b / 0x10_0000_0000_0000) % 0x800 == 1150 && b % 0x10_0000_0000_0000 == 0 ==> b == 0xC7E0_0000_0000_0000) by (bit_vector);',
+            32: 'assert(b / 0x8000_0000 == 1 && (b / 0x80_0000) % 0x100 == 254 && b % 0x80_0000 == 0 ==> b == 0xFF00_0000) by (bit_vector);'}[w]
     return '''
     let b = %(p)s_bits(f); let neg = %(p)s_neg(b); let m = %(p)s_mant(b); let e = %(p)s_exp(b);
-    lemma_p2_values(); lemma_pow10_values();
+    ff_lemma_p2_values(); lemma_pow10_values();
     if %(p)s_finite_bits(b) {
         assert(0 <= m < 0x20_0000_0000_0000);
-        assert forall|v: int| #[trigger] (1 * v) == v && #[trigger] (-1 * v) == -v && #[trigger] (0 * v) == 0 by { }
+        assert forall|s: int, v: int| (s == 1 ==> #[trigger] (s * v) == v) && (s == -1 ==> s * v == -v) && (s == 0 ==> s * v == 0) by { assert((s == 1 ==> s * v == v) && (s == -1 ==> s * v == -v) && (s == 0 ==> s * v == 0)) by (nonlinear_arith); }
         if e < -126 {
-            lemma_float_tiny(neg, m, e);
+            ff_lemma_float_tiny(neg, m, e);
         } else if e < 0 {
-            lemma_shl_usize((-e) as usize);
-            lemma_p2_mono((-e) as nat, 126);
+            ff_lemma_shl_usize((-e) as usize);
+            ff_lemma_p2_mono((-e) as nat, 126);
+            ff_lemma_p2_mono(0, (-e) as nat);
+            ff_lemma_frac_in_coeff(fl_num(neg, m, e), fl_den(e));
         } else {
-            lemma_float_int(neg, m, e);
+            ff_lemma_float_int(neg, m, e);
             let pe = p2(e as nat);
             assert((-m) * pe == -(m * pe)) by (nonlinear_arith);
+            if %(p)s_biased(b) != 0 && neg && m * pe == p2(127) {
+                ff_lemma_pow2_unique(m, e, %(t)s);
+                %(only)s
+            }
             if e < 127 {
-                lemma_shl_usize(e as usize);
+                ff_lemma_shl_usize(e as usize);
             } else {
-                lemma_shl_usize(127);
-                lemma_p2_mono(127, e as nat);
+                ff_lemma_shl_usize(127);
+                ff_lemma_p2_mono(127, e as nat);
                 assert(m * pe >= 2 * p2(127)) by (nonlinear_arith) requires m >= 2, pe >= p2(127), p2(127) > 0;
                 assert(m * i128::MIN <= 2 * i128::MIN) by (nonlinear_arith) requires m >= 2;
                 assert((-m) * i128::MIN >= -2 * i128::MIN) by (nonlinear_arith) requires m >= 2;
             }
         }
     }
-''' % {'p': p}
+''' % {'p': p, 't': t, 'only': only}
 
 
-def try_from_contract(w):
+def try_from_contract(w, strict_min=False):
     p = 'f%d' % w
+    # proved on the unchanged tree: the only float whose result lies outside Decimal::MIN ..= Decimal::MAX is -2^127
+    extra = [('C13.%s.valid_except_neg_2_127' % p,
+              'r matches Ok(d_) ==> valid(d_) || %s_bits(f) == %s' % (p, {64: '0xC7E0_0000_0000_0000', 32: '0xFF00_0000'}[w]))]
+    if strict_min:
+        # reading "i128 coefficient range" as Decimal::MIN ..= Decimal::MAX (|coeff| <= 2^127 - 1, the domain
+        # `valid` of every other property): violated by the unchanged tree for f = -2^127 exactly
+        # (f64 bits 0xC7E0_0000_0000_0000, f32 bits 0xFF00_0000): Ok(Decimal { coeff: i128::MIN, .. }).
+        extra.append(('C13.%s.valid' % p, 'r matches Ok(d_) ==> valid(d_)'))
     return C(
         value='dec_of_%s_bits(%s_bits(f))' % (p, p),
         out_type='Result<Decimal, DecimalError>',
         post=[('C13.%s.value' % p, 'r == dec_of_%s_bits(%s_bits(f))' % (p, p)),
-              ('C13.%s.wf' % p, 'r matches Ok(d_) ==> wf(d_)')],
-        entry=try_from_entry(w) + ' lemma_strip_le(round_div(fl_num(neg, m, e) * pow10(18), fl_den(e), RoundingMode::RoundHalfEven), 18);')
+              ('C13.%s.wf' % p, 'r matches Ok(d_) ==> wf(d_)')] + extra,
+        entry=try_from_entry(w) + ' ff_lemma_strip_le(round_div(fl_num(neg, m, e) * pow10(18), fl_den(e), RoundingMode::RoundHalfEven), 18);')
 
 
-def build():
-    u = Unit('from_float', specs=['base.rs', 'rounding.rs', 'decimal.rs', 'std_assumed.rs', 'float.rs', 'std_float.rs'])
+def build(strict_min=False):
+    u = Unit('from_float_strict' if strict_min else 'from_float', specs=['base.rs', 'rounding.rs', 'decimal.rs', 'std_assumed.rs', 'float.rs', 'std_float.rs'])
     u.raw(LEMMAS, 'from_float-lemmas')
     u.item('core', 'rounding::enum RoundingMode')
     u.item('core', 'const MAX_N_FRAC_DIGITS')
@@ -439,6 +589,11 @@ def build():
     u.fn('fpdec', 'from_float::f32_decode', cs['from_float::f32_decode'])
     u.item('fpdec', 'from_float::const MAGN_I128_MAX')
     u.fn('fpdec', 'from_float::approx_rational', cs['from_float::approx_rational'])
-    u.impl('fpdec', 'from_float::impl TryFrom<f32> for Decimal', {'try_from': try_from_contract(32)})
-    u.impl('fpdec', 'from_float::impl TryFrom<f64> for Decimal', {'try_from': try_from_contract(64)})
+    u.impl('fpdec', 'from_float::impl TryFrom<f32> for Decimal', {'try_from': try_from_contract(32, strict_min)})
+    u.impl('fpdec', 'from_float::impl TryFrom<f64> for Decimal', {'try_from': try_from_contract(64, strict_min)})
     return u
+
+
+def build_strict():
+    """same unit with the additional clause `valid(result)`; fails for f = -2^127 (finding, see report)"""
+    return build(strict_min=True)
